@@ -152,12 +152,13 @@ const (
 	srcLin
 	srcCloneSeq
 	srcCloneConc
+	srcLongHistory
 	srcCount
 )
 
 var srcNames = [srcCount]string{"NewFContext", "frugal.Clone(own)", "shared.Clone()", "frugal.Clone(custom)",
 	"ReadRequestHeader(marshalHeaders)", "ReadRequestHeader(WriteRequestHeader)", "clone-chain",
-	"lin-stage", "clone-seq-stage", "clone-conc-stage"}
+	"lin-stage", "clone-seq-stage", "clone-conc-stage", "long-history-stage"}
 
 type idRec struct {
 	id  uint64
